@@ -24,7 +24,10 @@ type Mutant struct {
 	// Resigned: the proposer signature was made again after the corruption (so it is valid and an inner
 	// rule is what fails). False for the mutants that are about the block signature itself.
 	Resigned bool
-	Block    *SignedBlock
+	// Unclassified: validity is not known by construction (byte-level mutants); neither "must reject" nor
+	// "must accept" may be concluded from the mutant alone.
+	Unclassified bool
+	Block        *SignedBlock
 	// Engine, when non-nil, is the script to install in the mock execution engine before applying the
 	// (otherwise unchanged) block: the corruption is the engine's answer.
 	Engine []Verdict
@@ -598,6 +601,34 @@ func (m *mutator) proposerSlashings(max int) {
 			ps.SignedHeader2.Signature = c.Keys.Sign(k, common.ComputeSigningRoot(ps.SignedHeader2.Message.HashTreeRoot(tree.GetHashFn()), dom))
 			return true
 		})
+		signHdr := func(h common.BeaconBlockHeader, ver common.Version, gvr common.Root) common.SignedBeaconBlockHeader {
+			dom := common.ComputeDomain(common.DOMAIN_BEACON_PROPOSER, ver, gvr)
+			return common.SignedBeaconBlockHeader{Message: h, Signature: c.Keys.Sign(k, common.ComputeSigningRoot(h.HashTreeRoot(tree.GetHashFn()), dom))}
+		}
+		verOf := func(h common.BeaconBlockHeader) common.Version {
+			if c.Spec.SlotToEpoch(h.Slot) < m.fork.Epoch {
+				return m.fork.PreviousVersion
+			}
+			return m.fork.CurrentVersion
+		}
+		m.add(lbl("header_1.signature:cross-chain(other-genesis-validators-root)"), "proposer_slashing.signature.chain", true, func(_ *SignedBlock, body BodyRef) bool {
+			ps := &(*body.ProposerSlashings)[i]
+			ps.SignedHeader1 = signHdr(ps.SignedHeader1.Message, verOf(ps.SignedHeader1.Message), otherRoot(c.GenesisValidatorsRoot))
+			return true
+		})
+		m.add(lbl("header_1.signature:cross-fork(other-version)"), "proposer_slashing.signature.fork", true, func(_ *SignedBlock, body BodyRef) bool {
+			ps := &(*body.ProposerSlashings)[i]
+			right := verOf(ps.SignedHeader1.Message)
+			wrong := m.fork.CurrentVersion
+			if wrong == right {
+				wrong = m.otherVersion()
+			}
+			if wrong == right {
+				return false
+			}
+			ps.SignedHeader1 = signHdr(ps.SignedHeader1.Message, wrong, c.GenesisValidatorsRoot)
+			return true
+		})
 		m.add(lbl("duplicated"), "proposer_slashing.not-slashable", true, func(_ *SignedBlock, body BodyRef) bool {
 			if uint64(len(*body.ProposerSlashings)) >= uint64(c.Spec.MAX_PROPOSER_SLASHINGS) {
 				return false
@@ -738,6 +769,22 @@ func (m *mutator) attesterSlashings(max int) {
 					keys = append(keys, k)
 				}
 			}
+			a.Signature = c.Keys.SignAggregate(keys, common.ComputeSigningRoot(a.Data.HashTreeRoot(tree.GetHashFn()), dom))
+			return true
+		})
+		m.add(lbl("attestation_1.signature:cross-chain(other-genesis-validators-root)"), "attester_slashing.signature.chain", true, func(_ *SignedBlock, body BodyRef) bool {
+			a := &(*body.AttesterSlashings)[i].Attestation1
+			ver := m.fork.CurrentVersion
+			if a.Data.Target.Epoch < m.fork.Epoch {
+				ver = m.fork.PreviousVersion
+			}
+			var keys []int
+			for _, v := range a.AttestingIndices {
+				if k, ok := m.key(v); ok {
+					keys = append(keys, k)
+				}
+			}
+			dom := common.ComputeDomain(common.DOMAIN_BEACON_ATTESTER, ver, otherRoot(c.GenesisValidatorsRoot))
 			a.Signature = c.Keys.SignAggregate(keys, common.ComputeSigningRoot(a.Data.HashTreeRoot(tree.GetHashFn()), dom))
 			return true
 		})
@@ -1498,6 +1545,40 @@ func (m *mutator) engine() {
 		script2[n-1] = EngineError
 		m.out = append(m.out, Mutant{Label: "engine:error-on-notify", Rule: "payload.engine-error", Block: b, Engine: script2})
 	}
+}
+
+// ByteMutations returns up to n mutants made by changing one byte of the block's SSZ encoding somewhere in the
+// message (not in the outer signature), keeping only those that still decode, re-signed by the proposer.
+// Whether such a block is valid is not known by construction (Rule "ssz-byte", Unclassified): almost all
+// are invalid (stale state root at the least), the consumer's oracle decides.
+func (c *Chain) ByteMutations(s *Step, n int, seed int64) (out []Mutant) {
+	if s == nil || s.Block == nil {
+		return nil
+	}
+	rng := rngFor(seed, "ssz-byte-mutations")
+	raw := s.Block.Bytes(c.Spec)
+	for tries := 0; len(out) < n && tries < 20*n; tries++ {
+		b := append([]byte(nil), raw...)
+		// the signed block is (offset:4, signature:96, message...): stay inside the message
+		pos := 100 + rng.Intn(len(b)-100)
+		var x byte
+		switch rng.Intn(3) {
+		case 0:
+			x = 1 << uint(rng.Intn(8))
+		case 1:
+			x = 0xff
+		default:
+			x = byte(1 + rng.Intn(255))
+		}
+		b[pos] ^= x
+		blk, err := DecodeBlock(c.Spec, s.Block.Fork, b)
+		if err != nil {
+			continue
+		}
+		c.SignBlock(blk, s.PreBlock)
+		out = append(out, Mutant{Label: fmt.Sprintf("ssz.byte[%d]^=%#02x", pos, x), Rule: "ssz-byte", Unclassified: true, Resigned: true, Block: blk})
+	}
+	return out
 }
 
 // Outcome of applying a mutant to the real code.
